@@ -1,4 +1,5 @@
 import Got.Model.WaitClose
+import Got.Spec.WaitClose
 /-
 Invariants of the WaitClose LTS (property C16).  Core Lean only.
 
@@ -510,5 +511,745 @@ theorem run_invA (s : St) (acts : List Act) (h : InvA s) : InvA (run s acts) := 
   induction acts generalizing s with
   | nil => exact h
   | cons a l ih => exact ih _ (step_invA s a h)
+
+/-! ## Layer B: the event log -/
+
+/-- `u` performed the close / assignment -/
+def didClose (l : List Ev) (u : Nat) : Prop := ∃ c n, Ev.closeDo u c n ∈ l
+
+def pcB (s : St) (u : Nat) : Pc → Prop
+  | .clCbStart => cbStarts s.log = 0 ∧ cbEnds s.log = 0 ∧ didClose s.log u
+  | .clCbRun => cbStarts s.log = 1 ∧ cbEnds s.log = 0
+  | .clStore _ => cbStarts s.log = cbEnds s.log ∧ cbStarts s.log ≤ 1
+  | .wSel ch _ _ => ch.isSome = true ∧ ch = s.closeChan
+  | _ => True
+
+def evFacts (s : St) : Ev → Prop
+  | .closeRet .. => s.state = wcClosed
+  | .iscRet _ true _ => s.state = wcClosed
+  | .cRet _ ch _ => ch.isSome = true ∧ ch = s.closeChan
+  | .wuRet _ _ ch _ _ _ => ch.isSome = true ∧ ch = s.closeChan
+  | .cbStart u _ => didClose s.log u
+  | _ => True
+
+structure InvB (s : St) : Prop where
+  nd : done s = false → cbStarts s.log = 0 ∧ cbEnds s.log = 0 ∧ closeDos s.log = 0
+  cl : s.state = wcClosed → cbStarts s.log = cbEnds s.log ∧ cbStarts s.log ≤ 1
+  dos : closeDos s.log ≤ 1
+  evs : ∀ e ∈ s.log, evFacts s e
+  pcs : ∀ u, pcB s u (s.pc u)
+
+theorem didClose_mono {l : List Ev} {u : Nat} (e : Ev) (h : didClose l u) : didClose (l ++ [e]) u := by
+  obtain ⟨c, n, h⟩ := h
+  exact ⟨c, n, List.mem_append_left _ h⟩
+
+/-- steps that change neither the log nor state/closeChan/closeTime -/
+theorem InvB_frame {s s' : St} (t : Nat) (v : Pc) (hlog : s'.log = s.log) (hst : s'.state = s.state)
+    (hch : s'.closeChan = s.closeChan) (hct : s'.closeTime = s.closeTime) (hp : s'.pc = upd s.pc t v)
+    (h : InvB s) (hv : pcB s t v) : InvB s' := by
+  have hd : done s' = done s := by simp [done, hct]
+  have hpcB : ∀ u p, pcB s u p → pcB s' u p := by
+    intro u p hp
+    cases p <;> simp only [pcB, hlog, hch] at hp ⊢ <;> (try exact hp)
+  refine ⟨?_, ?_, ?_, ?_, ?_⟩
+  · rw [hd, hlog]; exact h.nd
+  · rw [hst, hlog]; exact h.cl
+  · rw [hlog]; exact h.dos
+  · rw [hlog]; intro e he
+    have := h.evs e he
+    cases e with
+    | iscRet t b n => cases b <;> simp only [evFacts, hst] at this ⊢ <;> (try exact this)
+    | _ => simp only [evFacts, hst, hch, hlog] at this ⊢ <;> (try exact this)
+  · intro u
+    rw [hp]
+    by_cases hu : u = t
+    · subst hu; rw [upd_same]; exact hpcB _ _ hv
+    · rw [upd_other _ _ _ _ hu]; exact hpcB _ _ (h.pcs u)
+
+
+theorem InvB_of {s s' : St} (t : Nat) (v : Pc) (l : List Ev)
+    (hlog : s'.log = s.log ++ l) (hp : s'.pc = upd s.pc t v) (h : InvB s)
+    (hnd : done s' = false → cbStarts s'.log = 0 ∧ cbEnds s'.log = 0 ∧ closeDos s'.log = 0)
+    (hcl : s'.state = wcClosed → cbStarts s'.log = cbEnds s'.log ∧ cbStarts s'.log ≤ 1)
+    (hdos : closeDos s'.log ≤ 1)
+    (hev : ∀ e ∈ s.log, evFacts s e → evFacts s' e)
+    (hnew : ∀ e ∈ l, evFacts s' e)
+    (hv : pcB s' t v)
+    (ho : ∀ u, u ≠ t → pcB s u (s.pc u) → pcB s' u (s.pc u)) : InvB s' := by
+  refine ⟨hnd, hcl, hdos, ?_, ?_⟩
+  · intro e he
+    rw [hlog] at he
+    rcases List.mem_append.mp he with he | he
+    · exact hev e he (h.evs e he)
+    · exact hnew e he
+  · intro u
+    rw [hp]
+    by_cases hu : u = t
+    · subst hu; rw [upd_same]; exact hv
+    · rw [upd_other _ _ _ _ hu]; exact ho u hu (h.pcs u)
+
+def Ev.neutral (e : Ev) : Bool := !e.isCbStart && !e.isCbEnd && !e.isCloseDo
+
+theorem counts_append_neutral (l : List Ev) (e : Ev) (he : e.neutral = true) :
+    cbStarts (l ++ [e]) = cbStarts l ∧ cbEnds (l ++ [e]) = cbEnds l ∧ closeDos (l ++ [e]) = closeDos l := by
+  simp only [Ev.neutral, Bool.and_eq_true, Bool.not_eq_true'] at he
+  simp [cbStarts, cbEnds, closeDos, List.countP_append, he.1.1, he.1.2, he.2]
+
+/-- a step that appends a neutral event and changes nothing else but pc t (and sel) -/
+theorem InvB_append {s s' : St} (t : Nat) (v : Pc) (e : Ev) (hlog : s'.log = s.log ++ [e])
+    (hst : s'.state = s.state) (hch : s'.closeChan = s.closeChan) (hct : s'.closeTime = s.closeTime)
+    (hp : s'.pc = upd s.pc t v) (h : InvB s) (he : e.neutral = true) (hnew : evFacts s' e)
+    (hv : pcB s' t v) : InvB s' := by
+  have hd : done s' = done s := by simp [done, hct]
+  obtain ⟨c1, c2, c3⟩ := counts_append_neutral s.log e he
+  have hpcB : ∀ u p, pcB s u p → pcB s' u p := by
+    intro u p hp
+    cases p <;> simp only [pcB, hlog, hch, c1, c2] at hp ⊢ <;> (try exact hp)
+    exact ⟨hp.1, hp.2.1, didClose_mono e hp.2.2⟩
+  refine InvB_of t v [e] hlog hp h ?_ ?_ ?_ ?_ ?_ hv (fun u _ => hpcB u _)
+  · rw [hd, hlog, c1, c2, c3]; exact h.nd
+  · rw [hst, hlog, c1, c2]; exact h.cl
+  · rw [hlog, c3]; exact h.dos
+  · intro e' he' hf
+    cases e' with
+    | iscRet t b n => cases b <;> simp only [evFacts, hst] at hf ⊢ <;> (try exact hf)
+    | cbStart u n => simp only [evFacts, hlog] at hf ⊢; exact didClose_mono e hf
+    | _ => simp only [evFacts, hst, hch] at hf ⊢ <;> (try exact hf)
+  · intro e' he'; simp at he'; subst he'; exact hnew
+
+
+theorem others_not_hold {s : St} (hA : InvA s) (t : Nat) (hmu : s.mu = some t) (u : Nat) (hu : u ≠ t) :
+    (s.pc u).holds = false := by
+  cases h : (s.pc u).holds with
+  | false => rfl
+  | true =>
+    have := ((hA.2 u).lock.mp h)
+    rw [hmu] at this
+    exact absurd (Option.some.inj this).symm hu
+
+theorem pcB_other_holder {s s' : St} (hA : InvA s) (t : Nat) (hmu : s.mu = some t)
+    (hch : s.closeChan.isSome = true → s'.closeChan = s.closeChan) :
+    ∀ u, u ≠ t → pcB s u (s.pc u) → pcB s' u (s.pc u) := by
+  intro u hu hp
+  have hh := others_not_hold hA t hmu u hu
+  cases hpc : s.pc u <;> rw [hpc] at hh hp <;> simp only [Pc.holds] at hh <;> simp only [pcB] at hp ⊢ <;>
+    first | trivial | (cases hh) | skip
+  next ch st T =>
+    refine ⟨hp.1, ?_⟩
+    rw [hch (by rw [← hp.2]; exact hp.1)]; exact hp.2
+
+theorem evFacts_mono {s s' : St} (l : List Ev) (hlog : s'.log = s.log ++ l)
+    (hst : s.state = wcClosed → s'.state = wcClosed)
+    (hch : s.closeChan.isSome = true → s'.closeChan = s.closeChan) (e : Ev) (hf : evFacts s e) : evFacts s' e := by
+  cases e with
+  | iscRet t b n => cases b <;> simp only [evFacts] at hf ⊢ <;> (try exact hst hf)
+  | cbStart u n =>
+    simp only [evFacts, hlog] at hf ⊢
+    obtain ⟨c, m, h⟩ := hf
+    exact ⟨c, m, List.mem_append_left _ h⟩
+  | closeRet t r n => simp only [evFacts] at hf ⊢; exact hst hf
+  | cRet t ch n =>
+    simp only [evFacts] at hf ⊢
+    refine ⟨hf.1, ?_⟩
+    rw [hch (by rw [← hf.2]; exact hf.1)]; exact hf.2
+  | wuRet t b ch st T n =>
+    simp only [evFacts] at hf ⊢
+    refine ⟨hf.1, ?_⟩
+    rw [hch (by rw [← hf.2]; exact hf.1)]; exact hf.2
+  | _ => trivial
+
+theorem holder_of_holds {s : St} (hA : InvA s) (t : Nat) (h : (s.pc t).holds = true) : s.mu = some t :=
+  (hA.2 t).lock.mp h
+
+theorem cbStarts_snoc (l : List Ev) (e : Ev) : cbStarts (l ++ [e]) = cbStarts l + (if e.isCbStart then 1 else 0) := by
+  simp [cbStarts, List.countP_append, List.countP_cons]
+theorem cbEnds_snoc (l : List Ev) (e : Ev) : cbEnds (l ++ [e]) = cbEnds l + (if e.isCbEnd then 1 else 0) := by
+  simp [cbEnds, List.countP_append, List.countP_cons]
+theorem closeDos_snoc (l : List Ev) (e : Ev) : closeDos (l ++ [e]) = closeDos l + (if e.isCloseDo then 1 else 0) := by
+  simp [closeDos, List.countP_append, List.countP_cons]
+
+theorem stepT_invB (s : St) (t : Nat) (hA : InvA s) (h : InvB s) : InvB (stepT s t) := by
+  have g := hA.1
+  have t0 := hA.2 t
+  have b0 := h.pcs t
+  unfold stepT
+  split
+  · exact h
+  · next k hpc =>   -- load0
+    split
+    · exact InvB_frame (s := s) t _ rfl rfl rfl rfl rfl h trivial
+    · refine InvB_frame (s := s) t _ rfl rfl rfl rfl rfl h ?_
+      cases k <;> trivial
+  · next k hpc =>   -- iLock
+    split
+    · exact InvB_frame (s := s) t _ rfl rfl rfl rfl rfl h trivial
+    · exact h
+  · next k hpc =>   -- iCheck
+    split
+    · exact InvB_frame (s := s) t _ rfl rfl rfl rfl rfl h trivial
+    · exact InvB_frame (s := s) t _ rfl rfl rfl rfl rfl h trivial
+  · next k hpc =>   -- iMake
+    have hf := t0.facts; rw [hpc] at hf; simp only [pcFacts] at hf
+    have hmu := holder_of_holds hA t (by rw [hpc]; rfl)
+    have hch : s.closeChan.isSome = true → some (s.nchan + 1) = s.closeChan := by
+      intro a; rw [hf.2] at a; cases a
+    refine InvB_of (s := s) t _ [] (by simp) rfl h h.nd h.cl h.dos ?_ (by intro e he; cases he) trivial ?_
+    · intro e _ hf; refine evFacts_mono (s := s) [] ?_ ?_ ?_ e hf <;> first | (simp; done) | exact id | exact hch
+    · exact pcB_other_holder hA t hmu hch
+  · next k hpc =>   -- iStore
+    have hf := t0.facts; rw [hpc] at hf; simp only [pcFacts] at hf
+    have hmu := holder_of_holds hA t (by rw [hpc]; rfl)
+    have hst : s.state = wcClosed → wcInitialized = wcClosed := by
+      intro a; rw [hf.1] at a; exact absurd a (by cdec)
+    refine InvB_of (s := s) t _ [] (by simp) rfl h h.nd ?_ h.dos ?_ (by intro e he; cases he) trivial ?_
+    · intro a; exact absurd a (by cdec)
+    · intro e _ hf; refine evFacts_mono (s := s) [] ?_ ?_ ?_ e hf <;> first | (simp; done) | exact hst | exact (fun _ => rfl)
+    · exact pcB_other_holder hA t hmu (fun _ => rfl)
+  · next k hpc =>   -- iUnlock
+    refine InvB_frame (s := s) t _ rfl rfl rfl rfl rfl h ?_
+    cases k <;> trivial
+  · next hpc =>   -- cRead
+    have hf := t0.facts; rw [hpc] at hf; simp only [pcFacts] at hf
+    exact InvB_append (s := s) t _ _ rfl rfl rfl rfl rfl h rfl ⟨hf, rfl⟩ trivial
+  · next T hpc =>   -- wTimer
+    have hf := t0.facts; rw [hpc] at hf; simp only [pcFacts] at hf
+    exact InvB_frame (s := s) t _ rfl rfl rfl rfl rfl h ⟨hf, rfl⟩
+  · next ch st T hpc =>   -- wSel
+    split
+    · rw [hpc] at b0; simp only [pcB] at b0
+      exact InvB_append (s := s) t _ _ rfl rfl rfl rfl rfl h rfl b0 trivial
+    · exact h
+  · next hpc =>   -- isc
+    refine InvB_append (s := s) t _ _ rfl rfl rfl rfl rfl h rfl ?_ trivial
+    by_cases hc : s.state = wcClosed
+    · simp only [hc, decide_true, evFacts]
+    · simp only [hc, decide_false, evFacts]
+  · next cb hpc =>   -- clLoad
+    split
+    · exact InvB_frame (s := s) t _ rfl rfl rfl rfl rfl h trivial
+    · exact InvB_frame (s := s) t _ rfl rfl rfl rfl rfl h trivial
+  · next cb hpc =>   -- clLock
+    split
+    · exact InvB_frame (s := s) t _ rfl rfl rfl rfl rfl h trivial
+    · exact h
+  · next cb hpc =>   -- clCheck
+    split
+    · exact InvB_frame (s := s) t _ rfl rfl rfl rfl rfl h trivial
+    · exact InvB_frame (s := s) t _ rfl rfl rfl rfl rfl h trivial
+  · next cb hpc =>   -- clClose
+    have hf := t0.facts; rw [hpc] at hf; simp only [pcFacts] at hf
+    have hmu := holder_of_holds hA t (by rw [hpc]; rfl)
+    obtain ⟨n1, n2, n3⟩ := h.nd hf.2
+    have hv : (if cb = true then Pc.clCbStart else Pc.clStore none) = .clCbStart ∨
+              (if cb = true then Pc.clCbStart else Pc.clStore none) = .clStore none := by
+      cases cb <;> simp
+    by_cases hst : s.state = wcInitialized
+    · obtain ⟨hch, hnc, _⟩ := InvA_close_init t cb (s.log ++ [.closeDo t 1 s.now]) _ hA hpc hst hv
+      simp only [hst, hch, hnc, ↓reduceIte, Bool.false_eq_true]
+      refine InvB_of (s := s) t _ [.closeDo t 1 s.now] rfl rfl h ?_ ?_ ?_ ?_ ?_ ?_ ?_
+      · intro a; cases a
+      · intro a; have : s.state = wcClosed := by rw [hst]; exact a
+        exact absurd this hf.1
+      · show closeDos (s.log ++ [Ev.closeDo t 1 s.now]) ≤ 1
+        rw [closeDos_snoc, n3]; simp [Ev.isCloseDo]
+      · intro e _ hf
+        refine evFacts_mono (s := s) [.closeDo t 1 s.now] ?_ ?_ ?_ e hf <;> first | rfl | exact (fun a => by rw [← hst]; exact a) | exact (fun _ => hch.symm)
+      · intro e he; simp at he; subst he; trivial
+      · have hd : didClose (s.log ++ [Ev.closeDo t 1 s.now]) t := ⟨1, s.now, by simp⟩
+        cases cb <;> simp only [↓reduceIte, Bool.false_eq_true, pcB, cbStarts_snoc, cbEnds_snoc, n1, n2, Ev.isCbStart, Ev.isCbEnd]
+        · simp
+        · exact ⟨by simp, by simp, hd⟩
+      · exact pcB_other_holder hA t hmu (fun _ => hch.symm)
+    · simp only [hst, ↓reduceIte]
+      have hnew : s.state = wcNew := by
+        rcases g.dom with a | a | a
+        · exact a
+        · exact absurd a hst
+        · exact absurd a hf.1
+      have hcn : s.closeChan.isSome = true → some globalChan = s.closeChan := by
+        intro a
+        have := t0.new2 hmu hnew a
+        rw [hpc] at this; cases this
+      refine InvB_of (s := s) t _ [.closeDo t globalChan s.now] rfl rfl h ?_ ?_ ?_ ?_ ?_ ?_ ?_
+      · intro a; cases a
+      · intro a; exact absurd a hf.1
+      · show closeDos (s.log ++ [Ev.closeDo t globalChan s.now]) ≤ 1
+        rw [closeDos_snoc, n3]; simp [Ev.isCloseDo]
+      · intro e _ hf
+        refine evFacts_mono (s := s) [.closeDo t globalChan s.now] ?_ ?_ ?_ e hf <;> first | rfl | exact id | exact hcn
+      · intro e he; simp at he; subst he; trivial
+      · have hd : didClose (s.log ++ [Ev.closeDo t globalChan s.now]) t := ⟨globalChan, s.now, by simp⟩
+        cases cb <;> simp only [↓reduceIte, Bool.false_eq_true, pcB, cbStarts_snoc, cbEnds_snoc, n1, n2, Ev.isCbStart, Ev.isCbEnd]
+        · simp
+        · exact ⟨by simp, by simp, hd⟩
+      · exact pcB_other_holder hA t hmu hcn
+  · next hpc =>   -- clCbStart
+    have hf := t0.facts; rw [hpc] at hf; simp only [pcFacts] at hf
+    have hmu := holder_of_holds hA t (by rw [hpc]; rfl)
+    rw [hpc] at b0; simp only [pcB] at b0
+    refine InvB_of (s := s) t _ [.cbStart t s.now] rfl rfl h ?_ ?_ ?_ ?_ ?_ ?_ ?_
+    · intro a; have : done s = false := a; rw [hf.2] at this; cases this
+    · intro a; exact absurd a hf.1
+    · show closeDos (s.log ++ [Ev.cbStart t s.now]) ≤ 1
+      rw [closeDos_snoc]; simp [Ev.isCloseDo]; exact h.dos
+    · intro e _ hf; refine evFacts_mono (s := s) [.cbStart t s.now] ?_ ?_ ?_ e hf <;> first | rfl | exact id | exact (fun _ => rfl)
+    · intro e he; simp at he; subst he; exact didClose_mono _ b0.2.2
+    · simp only [pcB, cbStarts_snoc, cbEnds_snoc, b0.1, b0.2.1, Ev.isCbStart, Ev.isCbEnd]; simp
+    · intro u hu hp
+      have := pcB_other_holder (s' := s) hA t hmu (fun _ => rfl) u hu hp
+      have hh := others_not_hold hA t hmu u hu
+      cases hpc' : s.pc u <;> rw [hpc'] at hh this <;> simp only [Pc.holds] at hh <;> simp only [pcB] at this ⊢ <;>
+        first | trivial | (cases hh) | exact this
+  · exact h
+  · next r hpc =>   -- clStore
+    have hf := t0.facts; rw [hpc] at hf; simp only [pcFacts] at hf
+    have hmu := holder_of_holds hA t (by rw [hpc]; rfl)
+    rw [hpc] at b0; simp only [pcB] at b0
+    refine InvB_of (s := s) t _ [] (by simp) rfl h ?_ ?_ h.dos ?_ (by intro e he; cases he) trivial ?_
+    · intro a; have : done s = false := a; rw [hf.2] at this; cases this
+    · intro _; exact b0
+    · intro e _ hf; refine evFacts_mono (s := s) [] ?_ ?_ ?_ e hf <;> first | (simp; done) | exact (fun _ => rfl)
+    · exact pcB_other_holder hA t hmu (fun _ => rfl)
+  · next r hpc =>   -- clUnlock
+    exact InvB_frame (s := s) t _ rfl rfl rfl rfl rfl h trivial
+  · next r hpc =>   -- clRet
+    have hf := t0.facts; rw [hpc] at hf; simp only [pcFacts] at hf
+    exact InvB_append (s := s) t _ _ rfl rfl rfl rfl rfl h rfl hf trivial
+
+
+theorem upd_self {α} (f : Nat → α) (t : Nat) : upd f t (f t) = f := by
+  funext u; simp only [upd]; split
+  · next h => rw [h]
+  · rfl
+
+theorem step_invB (s : St) (a : Act) (hA : InvA s) (h : InvB s) : InvB (step s a) := by
+  cases a with
+  | invoke t call =>
+    simp only [step]
+    split
+    · cases call <;> exact InvB_frame (s := s) t _ rfl rfl rfl rfl rfl h trivial
+    · exact h
+  | step t => exact stepT_invB s t hA h
+  | cbEnd t r =>
+    simp only [step]
+    split
+    · next hpc =>
+      have t0 := hA.2 t
+      have b0 := h.pcs t
+      have hf := t0.facts; rw [hpc] at hf; simp only [pcFacts] at hf
+      have hmu := holder_of_holds hA t (by rw [hpc]; rfl)
+      rw [hpc] at b0; simp only [pcB] at b0
+      refine InvB_of (s := s) t _ [.cbEnd t r s.now] rfl rfl h ?_ ?_ ?_ ?_ ?_ ?_ ?_
+      · intro a; have : done s = false := a; rw [hf.2] at this; cases this
+      · intro a; exact absurd a hf.1
+      · show closeDos (s.log ++ [Ev.cbEnd t r s.now]) ≤ 1
+        rw [closeDos_snoc]; simp [Ev.isCloseDo]; exact h.dos
+      · intro e _ hf; refine evFacts_mono (s := s) [.cbEnd t r s.now] ?_ ?_ ?_ e hf <;> first | rfl | exact id | exact (fun _ => rfl)
+      · intro e he; simp at he; subst he; trivial
+      · simp only [pcB, cbStarts_snoc, cbEnds_snoc, b0.1, b0.2, Ev.isCbStart, Ev.isCbEnd]; simp
+      · intro u hu hp
+        have hh := others_not_hold hA t hmu u hu
+        cases hpc' : s.pc u <;> rw [hpc'] at hh hp <;> simp only [Pc.holds] at hh <;> simp only [pcB] at hp ⊢ <;>
+          first | trivial | (cases hh) | exact hp
+    · exact h
+  | timeout t =>
+    simp only [step]
+    split
+    · next ch st T hpc =>
+      split
+      · have b0 := h.pcs t
+        rw [hpc] at b0; simp only [pcB] at b0
+        exact InvB_append (s := s) t _ _ rfl rfl rfl rfl rfl h rfl b0 trivial
+      · exact h
+    · exact h
+  | tick d =>
+    simp only [step]
+    split
+    · exact InvB_frame (s := s) 0 (s.pc 0) rfl rfl rfl rfl (by simp [upd_self]) h (h.pcs 0)
+    · exact h
+
+theorem init_invB : InvB init := by
+  refine ⟨?_, ?_, ?_, ?_, ?_⟩
+  · intro _; simp [init, cbStarts, cbEnds, closeDos]
+  · intro a; exact absurd a (by decide)
+  · simp [init, closeDos]
+  · intro e he; simp [init] at he
+  · intro u; simp [init, pcB]
+
+theorem run_invAB (s : St) (acts : List Act) (hA : InvA s) (hB : InvB s) :
+    InvA (run s acts) ∧ InvB (run s acts) := by
+  induction acts generalizing s with
+  | nil => exact ⟨hA, hB⟩
+  | cons a l ih => exact ih _ (step_invA s a hA) (step_invB s a hA hB)
+
+theorem reach_invAB (acts : List Act) : InvA (run init acts) ∧ InvB (run init acts) :=
+  run_invAB init acts init_invA init_invB
+
+/-! ## Layer C: timing of WaitUtil -/
+
+/-- what a WaitUtil result says about the instant of the close (`ct` = closeTime now, or later) -/
+def evC (now : Nat) (ct : Option Nat) : Ev → Prop
+  | .wuRet _ true _ st T n =>
+      n ≤ now ∧ ∃ tc, ct = some tc ∧ tc ≤ n ∧ (0 < T → (tc : Int) ≤ st + T)
+  | .wuRet _ false _ st T n =>
+      n ≤ now ∧ (st : Int) + T ≤ n ∧ (0 < T → ct = none ∨ ∃ tc, ct = some tc ∧ (st : Int) + T ≤ tc)
+  | _ => True
+
+structure InvC (s : St) : Prop where
+  ct : ∀ tc, s.closeTime = some tc → tc ≤ s.now
+  sel : ∀ u ch st T, s.pc u = .wSel ch st T → u ∈ s.sel
+  w : ∀ u ch st T, s.pc u = .wSel ch st T →
+        st ≤ s.now ∧ ((s.now : Int) ≤ st ∨ (s.now : Int) ≤ st + T) ∧
+        (chanClosed s ch = true → ∃ tc, s.closeTime = some tc ∧ ((tc ≤ st ∧ s.now = st) ∨ (st ≤ tc ∧ s.now = tc)))
+  ev : ∀ e ∈ s.log, evC s.now s.closeTime e
+  ctl : ∀ tc, s.closeTime = some tc → ∃ t c, Ev.closeDo t c tc ∈ s.log
+
+theorem chanClosed_congr {s s' : St} (h : s'.closed = s.closed) (ch : Option Nat) :
+    chanClosed s' ch = chanClosed s ch := by
+  cases ch <;> simp [chanClosed, h]
+
+theorem InvC_frame {s s' : St} (t : Nat) (v : Pc) (l : List Ev)
+    (hnow : s'.now = s.now) (hct : s'.closeTime = s.closeTime) (hcl : s'.closed = s.closed)
+    (hlog : s'.log = s.log ++ l) (hp : s'.pc = upd s.pc t v)
+    (hsel : ∀ u, u ≠ t → u ∈ s.sel → u ∈ s'.sel)
+    (hv : ∀ ch st T, v ≠ .wSel ch st T)
+    (hnew : ∀ e ∈ l, evC s.now s.closeTime e)
+    (h : InvC s) : InvC s' := by
+  have hpc : ∀ u ch st T, s'.pc u = .wSel ch st T → u ≠ t ∧ s.pc u = .wSel ch st T := by
+    intro u ch st T hu
+    rw [hp] at hu
+    by_cases e : u = t
+    · subst e; rw [upd_same] at hu; exact absurd hu (hv ch st T)
+    · rw [upd_other _ _ _ _ e] at hu; exact ⟨e, hu⟩
+  refine ⟨?_, ?_, ?_, ?_, ?_⟩
+  rotate_left 4
+  · intro tc a; rw [hct] at a
+    obtain ⟨x, c, hx⟩ := h.ctl tc a
+    exact ⟨x, c, by rw [hlog]; exact List.mem_append_left _ hx⟩
+  · rw [hnow, hct]; exact h.ct
+  · intro u ch st T hu
+    obtain ⟨e, hu⟩ := hpc u ch st T hu
+    exact hsel u e (h.sel u ch st T hu)
+  · intro u ch st T hu
+    obtain ⟨e, hu⟩ := hpc u ch st T hu
+    rw [hnow, hct, chanClosed_congr hcl]
+    exact h.w u ch st T hu
+  · intro e he
+    rw [hlog] at he
+    rw [hnow, hct]
+    rcases List.mem_append.mp he with he | he
+    · exact h.ev e he
+    · exact hnew e he
+
+
+theorem closed_iff_done {s : St} (hA : InvA s) : chanClosed s s.closeChan = true ↔ done s = true := by
+  have g := hA.1
+  constructor
+  · intro h
+    cases hc : s.closeChan with
+    | none => rw [hc] at h; simp [chanClosed] at h
+    | some c =>
+      rw [hc] at h; simp only [chanClosed, List.contains_iff_mem] at h
+      rcases g.cls c h with rfl | rfl
+      · exact g.ch0 hc
+      · exact g.cl1 h
+  · intro h
+    obtain ⟨c, hc, hm⟩ := g.dn h
+    rw [hc]; simp only [chanClosed, List.contains_iff_mem]; exact hm
+
+theorem evC_mono_now {now now' : Nat} {ct : Option Nat} (h : now ≤ now') (e : Ev) (he : evC now ct e) :
+    evC now' ct e := by
+  cases e with
+  | wuRet t b ch st T n =>
+    cases b <;> simp only [evC] at he ⊢
+    · exact ⟨Nat.le_trans he.1 h, he.2⟩
+    · exact ⟨Nat.le_trans he.1 h, he.2⟩
+  | _ => trivial
+
+/-- the close happens now: earlier WaitUtil results stay justified -/
+theorem evC_close {now : Nat} (e : Ev) (he : evC now none e) : evC now (some now) e := by
+  cases e with
+  | wuRet t b ch st T n =>
+    cases b <;> simp only [evC] at he ⊢
+    · refine ⟨he.1, he.2.1, fun hT => Or.inr ⟨now, rfl, ?_⟩⟩
+      have := he.1; have := he.2.1; omega
+    · obtain ⟨_, tc, h, _⟩ := he; cases h
+  | _ => trivial
+
+theorem stepT_invC (s : St) (t : Nat) (hA : InvA s) (hB : InvB s) (h : InvC s) : InvC (stepT s t) := by
+  have t0 := hA.2 t
+  have b0 := hB.pcs t
+  unfold stepT
+  split
+  · exact h
+  · next k hpc =>
+    split
+    · exact InvC_frame (s := s) t _ [] rfl rfl rfl (by simp) rfl (fun _ _ a => a) (by intro _ _ _ x; cases x) (by intro e he; cases he) h
+    · refine InvC_frame (s := s) t _ [] rfl rfl rfl (by simp) rfl (fun _ _ a => a) ?_ (by intro e he; cases he) h
+      cases k <;> (intro _ _ _ x; cases x)
+  · next k hpc =>
+    split
+    · exact InvC_frame (s := s) t _ [] rfl rfl rfl (by simp) rfl (fun _ _ a => a) (by intro _ _ _ x; cases x) (by intro e he; cases he) h
+    · exact h
+  · next k hpc =>
+    split
+    · exact InvC_frame (s := s) t _ [] rfl rfl rfl (by simp) rfl (fun _ _ a => a) (by intro _ _ _ x; cases x) (by intro e he; cases he) h
+    · exact InvC_frame (s := s) t _ [] rfl rfl rfl (by simp) rfl (fun _ _ a => a) (by intro _ _ _ x; cases x) (by intro e he; cases he) h
+  · next k hpc =>
+    exact InvC_frame (s := s) t _ [] rfl rfl rfl (by simp) rfl (fun _ _ a => a) (by intro _ _ _ x; cases x) (by intro e he; cases he) h
+  · next k hpc =>
+    exact InvC_frame (s := s) t _ [] rfl rfl rfl (by simp) rfl (fun _ _ a => a) (by intro _ _ _ x; cases x) (by intro e he; cases he) h
+  · next k hpc =>
+    refine InvC_frame (s := s) t _ [] rfl rfl rfl (by simp) rfl (fun _ _ a => a) ?_ (by intro e he; cases he) h
+    cases k <;> (intro _ _ _ x; cases x)
+  · next hpc =>   -- cRead
+    exact InvC_frame (s := s) t _ [_] rfl rfl rfl rfl rfl (fun _ _ a => a) (by intro _ _ _ x; cases x)
+      (by intro e he; simp at he; subst he; trivial) h
+  · next T hpc =>   -- wTimer
+    refine ⟨h.ct, ?_, ?_, h.ev, h.ctl⟩
+    · intro u ch st T' hu
+      by_cases e : u = t
+      · subst e; simp
+      · simp only [upd_other _ _ _ _ e] at hu
+        exact List.mem_cons_of_mem _ (h.sel u ch st T' hu)
+    · intro u ch st T' hu
+      by_cases e : u = t
+      · subst e
+        simp only [upd_same] at hu
+        cases hu
+        refine ⟨Nat.le_refl _, Or.inl (Int.le_refl _), ?_⟩
+        intro hc
+        have hc' : chanClosed s s.closeChan = true := hc
+        have hd := (closed_iff_done hA).mp hc'
+        simp only [done, Option.isSome_iff_exists] at hd
+        obtain ⟨tc, htc⟩ := hd
+        exact ⟨tc, htc, Or.inl ⟨h.ct tc htc, rfl⟩⟩
+      · simp only [upd_other _ _ _ _ e] at hu
+        exact h.w u ch st T' hu
+  · next ch st T hpc =>   -- wSel
+    split
+    · next hc =>
+      obtain ⟨w1, w2, w3⟩ := h.w t ch st T hpc
+      obtain ⟨tc, htc, hcase⟩ := w3 hc
+      refine InvC_frame (s := s) t _ [_] rfl rfl rfl rfl rfl (fun u hu a => (List.mem_erase_of_ne hu).mpr a)
+        (by intro _ _ _ x; cases x) ?_ h
+      intro e he; simp at he; subst he
+      simp only [evC]
+      refine ⟨Nat.le_refl _, tc, htc, ?_, ?_⟩
+      · rcases hcase with ⟨a, b⟩ | ⟨a, b⟩ <;> omega
+      · intro hT
+        rcases hcase with ⟨a, b⟩ | ⟨a, b⟩ <;> rcases w2 with c | c <;> omega
+    · exact h
+  · next hpc =>   -- isc
+    exact InvC_frame (s := s) t _ [_] rfl rfl rfl rfl rfl (fun _ _ a => a) (by intro _ _ _ x; cases x)
+      (by intro e he; simp at he; subst he; trivial) h
+  · next cb hpc =>
+    split
+    · exact InvC_frame (s := s) t _ [] rfl rfl rfl (by simp) rfl (fun _ _ a => a) (by intro _ _ _ x; cases x) (by intro e he; cases he) h
+    · exact InvC_frame (s := s) t _ [] rfl rfl rfl (by simp) rfl (fun _ _ a => a) (by intro _ _ _ x; cases x) (by intro e he; cases he) h
+  · next cb hpc =>
+    split
+    · exact InvC_frame (s := s) t _ [] rfl rfl rfl (by simp) rfl (fun _ _ a => a) (by intro _ _ _ x; cases x) (by intro e he; cases he) h
+    · exact h
+  · next cb hpc =>
+    split
+    · exact InvC_frame (s := s) t _ [] rfl rfl rfl (by simp) rfl (fun _ _ a => a) (by intro _ _ _ x; cases x) (by intro e he; cases he) h
+    · exact InvC_frame (s := s) t _ [] rfl rfl rfl (by simp) rfl (fun _ _ a => a) (by intro _ _ _ x; cases x) (by intro e he; cases he) h
+  · next cb hpc =>   -- clClose
+    have hf := t0.facts; rw [hpc] at hf; simp only [pcFacts] at hf
+    have hctn : s.closeTime = none := by
+      have := hf.2; simp only [done] at this
+      cases hc : s.closeTime with
+      | none => rfl
+      | some x => rw [hc] at this; cases this
+    have hv : ∀ ch st T, (if cb = true then Pc.clCbStart else Pc.clStore none) ≠ .wSel ch st T := by
+      intro ch st T; cases cb <;> simp
+    have hv' : (if cb = true then Pc.clCbStart else Pc.clStore none) = .clCbStart ∨
+              (if cb = true then Pc.clCbStart else Pc.clStore none) = .clStore none := by
+      cases cb <;> simp
+    have hpc' : ∀ (pc' : Nat → Pc), pc' = upd s.pc t (if cb = true then Pc.clCbStart else Pc.clStore none) →
+        ∀ u ch st T, pc' u = .wSel ch st T → s.pc u = .wSel ch st T := by
+      intro pc' hp u ch st T hu
+      rw [hp] at hu
+      by_cases e : u = t
+      · subst e; rw [upd_same] at hu; exact absurd hu (hv ch st T)
+      · rw [upd_other _ _ _ _ e] at hu; exact hu
+    have hw : ∀ u ch st T, s.pc u = .wSel ch st T →
+        st ≤ s.now ∧ ((s.now : Int) ≤ st ∨ (s.now : Int) ≤ st + T) ∧ ∃ tc, some s.now = some tc ∧ ((tc ≤ st ∧ s.now = st) ∨ (st ≤ tc ∧ s.now = tc)) := by
+      intro u ch st T hu
+      obtain ⟨w1, w2, _⟩ := h.w u ch st T hu
+      exact ⟨w1, w2, s.now, rfl, Or.inr ⟨w1, rfl⟩⟩
+    have hev : ∀ e ∈ s.log, evC s.now (some s.now) e := by
+      intro e he; have := h.ev e he; rw [hctn] at this; exact evC_close e this
+    by_cases hst : s.state = wcInitialized
+    · obtain ⟨hch, hnc, _⟩ := InvA_close_init t cb (s.log ++ [.closeDo t 1 s.now]) _ hA hpc hst hv'
+      simp only [hst, hch, hnc, ↓reduceIte, Bool.false_eq_true]
+      refine ⟨?_, ?_, ?_, ?_, ?_⟩
+      rotate_left 4
+      · intro tc a; have : some s.now = some tc := a; cases this
+        exact ⟨t, _, List.mem_append_right _ (List.mem_singleton.mpr rfl)⟩
+      · intro tc a; have : some s.now = some tc := a; cases this; exact Nat.le_refl _
+      · intro u ch st T hu; exact h.sel u ch st T (hpc' _ rfl u ch st T hu)
+      · intro u ch st T hu
+        obtain ⟨a, b, c⟩ := hw u ch st T (hpc' _ rfl u ch st T hu)
+        exact ⟨a, b, fun _ => c⟩
+      · intro e he
+        rcases List.mem_append.mp he with he | he
+        · exact hev e he
+        · simp at he; subst he; trivial
+    · simp only [hst, ↓reduceIte]
+      refine ⟨?_, ?_, ?_, ?_, ?_⟩
+      rotate_left 4
+      · intro tc a; have : some s.now = some tc := a; cases this
+        exact ⟨t, _, List.mem_append_right _ (List.mem_singleton.mpr rfl)⟩
+      · intro tc a; have : some s.now = some tc := a; cases this; exact Nat.le_refl _
+      · intro u ch st T hu; exact h.sel u ch st T (hpc' _ rfl u ch st T hu)
+      · intro u ch st T hu
+        obtain ⟨a, b, c⟩ := hw u ch st T (hpc' _ rfl u ch st T hu)
+        exact ⟨a, b, fun _ => c⟩
+      · intro e he
+        rcases List.mem_append.mp he with he | he
+        · exact hev e he
+        · simp at he; subst he; trivial
+  · next hpc =>   -- clCbStart
+    exact InvC_frame (s := s) t _ [_] rfl rfl rfl rfl rfl (fun _ _ a => a) (by intro _ _ _ x; cases x)
+      (by intro e he; simp at he; subst he; trivial) h
+  · exact h
+  · next r hpc =>
+    exact InvC_frame (s := s) t _ [] rfl rfl rfl (by simp) rfl (fun _ _ a => a) (by intro _ _ _ x; cases x) (by intro e he; cases he) h
+  · next r hpc =>
+    exact InvC_frame (s := s) t _ [] rfl rfl rfl (by simp) rfl (fun _ _ a => a) (by intro _ _ _ x; cases x) (by intro e he; cases he) h
+  · next r hpc =>
+    exact InvC_frame (s := s) t _ [_] rfl rfl rfl rfl rfl (fun _ _ a => a) (by intro _ _ _ x; cases x)
+      (by intro e he; simp at he; subst he; trivial) h
+
+
+theorem step_invC (s : St) (a : Act) (hA : InvA s) (hB : InvB s) (h : InvC s) : InvC (step s a) := by
+  cases a with
+  | invoke t call =>
+    simp only [step]
+    split
+    · cases call <;>
+        exact InvC_frame (s := s) t _ [] rfl rfl rfl (by simp) rfl (fun _ _ a => a) (by intro _ _ _ x; cases x) (by intro e he; cases he) h
+    · exact h
+  | step t => exact stepT_invC s t hA hB h
+  | cbEnd t r =>
+    simp only [step]
+    split
+    · exact InvC_frame (s := s) t _ [_] rfl rfl rfl rfl rfl (fun _ _ a => a) (by intro _ _ _ x; cases x)
+        (by intro e he; simp at he; subst he; trivial) h
+    · exact h
+  | timeout t =>
+    simp only [step]
+    split
+    · next ch st T hpc =>
+      split
+      · next hg =>
+        obtain ⟨w1, w2, w3⟩ := h.w t ch st T hpc
+        have b0 := hB.pcs t
+        rw [hpc] at b0; simp only [pcB] at b0
+        refine InvC_frame (s := s) t _ [_] rfl rfl rfl rfl rfl (fun u hu a => (List.mem_erase_of_ne hu).mpr a)
+          (by intro _ _ _ x; cases x) ?_ h
+        intro e he; simp at he; subst he
+        simp only [evC]
+        refine ⟨Nat.le_refl _, hg, ?_⟩
+        intro hT
+        cases hc : s.closeTime with
+        | none => exact Or.inl rfl
+        | some tc =>
+          right
+          have hd : done s = true := by simp [done, hc]
+          have hcl := (closed_iff_done hA).mpr hd
+          rw [← b0.2] at hcl
+          obtain ⟨tc', htc', hcase⟩ := w3 hcl
+          rw [hc] at htc'; cases htc'
+          refine ⟨tc, rfl, ?_⟩
+          rcases hcase with ⟨a, b⟩ | ⟨a, b⟩ <;> rcases w2 with c | c <;> omega
+      · exact h
+    · exact h
+  | tick d =>
+    simp only [step]
+    split
+    · next hok =>
+      simp only [tickOk, List.all_eq_true] at hok
+      refine ⟨?_, h.sel, ?_, ?_, h.ctl⟩
+      · intro tc a; exact Nat.le_trans (h.ct tc a) (Nat.le_add_right _ _)
+      · intro u ch st T hu
+        have hu' : s.pc u = .wSel ch st T := hu
+        have := hok u (h.sel u ch st T hu')
+        rw [hu'] at this
+        simp only [Bool.and_eq_true, Bool.not_eq_true', decide_eq_true_eq] at this
+        obtain ⟨w1, w2, w3⟩ := h.w u ch st T hu'
+        refine ⟨Nat.le_trans w1 (Nat.le_add_right _ _), Or.inr ?_, ?_⟩
+        · show ((s.now + d : Nat) : Int) ≤ st + T
+          have := this.2; omega
+        · intro hc
+          have hc' : chanClosed s ch = true := hc
+          rw [this.1] at hc'; cases hc'
+      · intro e he
+        exact evC_mono_now (Nat.le_add_right _ _) e (h.ev e he)
+    · exact h
+
+theorem init_invC : InvC init := by
+  refine ⟨?_, ?_, ?_, ?_, ?_⟩
+  rotate_left 4
+  · intro tc a; cases a
+  · intro tc a; cases a
+  · intro u ch st T a; cases a
+  · intro u ch st T a; cases a
+  · intro e he; cases he
+
+theorem reach_inv (acts : List Act) : InvA (run init acts) ∧ InvB (run init acts) ∧ InvC (run init acts) := by
+  suffices ∀ s, InvA s → InvB s → InvC s → InvA (run s acts) ∧ InvB (run s acts) ∧ InvC (run s acts) from
+    this init init_invA init_invB init_invC
+  induction acts with
+  | nil => intro s a b c; exact ⟨a, b, c⟩
+  | cons x l ih =>
+    intro s a b c
+    exact ih _ (step_invA s x a) (step_invB s x a b) (step_invC s x a b c)
+
+
+theorem run_append (s : St) (l1 l2 : List Act) : run s (l1 ++ l2) = run (run s l1) l2 := by
+  simp [run, List.foldl_append]
+
+/-- at most one callback start, in every reachable state -/
+theorem cbStarts_le_one {s : St} (hA : InvA s) (hB : InvB s) : cbStarts s.log ≤ 1 := by
+  cases hd : done s with
+  | false => have := (hB.nd hd).1; omega
+  | true =>
+    by_cases hc : s.state = wcClosed
+    · exact (hB.cl hc).2
+    · have hm := hA.1.dn1 hd hc
+      cases hmu : s.mu with
+      | none => rw [hmu] at hm; cases hm
+      | some h =>
+        have ha := (hA.2 h).dn2 hmu hd hc
+        have hb := hB.pcs h
+        cases hpc : s.pc h <;> rw [hpc] at ha hb <;> simp only [Pc.after] at ha <;> simp only [pcB] at hb <;>
+          first | (have := hb.1; omega) | (have := hb.2; omega) | (cases ha)
+
+/-- the state word never leaves `closed` -/
+theorem step_closed_stable {s : St} (hA : InvA s) (a : Act) (hc : s.state = wcClosed) : (step s a).state = wcClosed := by
+  cases a with
+  | invoke t call =>
+    simp only [step]; split
+    · cases call <;> exact hc
+    · exact hc
+  | step t =>
+    simp only [step]
+    have t0 := hA.2 t
+    cases hpc : s.pc t <;> simp only [stepT, hpc] <;> (repeat' split) <;> first | exact hc | rfl | skip
+    next k =>
+      have hf := t0.facts; rw [hpc] at hf; simp only [pcFacts] at hf
+      rw [hf.1] at hc; exact absurd hc (by decide)
+  | cbEnd t r => simp only [step]; split <;> exact hc
+  | timeout t => simp only [step]; split <;> (try split) <;> exact hc
+  | tick d => simp only [step]; split <;> exact hc
+
+theorem run_closed_stable {s : St} (hA : InvA s) (acts : List Act) (hc : s.state = wcClosed) :
+    (run s acts).state = wcClosed := by
+  induction acts generalizing s with
+  | nil => exact hc
+  | cons a l ih => exact ih (step_invA s a hA) (step_closed_stable hA a hc)
 
 end Got.Model.WaitClose
